@@ -142,6 +142,10 @@ def matchEvents : List (Bool × Event) → List Event → List Item × List Even
 
 def hexSx (b : Bytes) : Sx := Sx.ofBytes b
 
+/-- what a report can show of a float: a JSON number; NaN and ±Inf (exponent field all ones) are
+    shown as no value -/
+def shownFloat (mantissa expRange : Nat) (bits : Nat) : Bool := (bits / mantissa) % expRange != expRange - 1
+
 /-- what a report can show of a timestamp: the reports are JSON documents, whose timestamps
     carry the years 0 .. 9999; anything else is shown as the zero time -/
 def shownTime (sec : Int) : Int :=
@@ -153,8 +157,8 @@ partial def fvalSx : FVal → Sx
   | .i16 n => .list [.atom "s", Sx.ofInt n]
   | .i32 n => .list [.atom "I", Sx.ofInt n]
   | .i64 n => .list [.atom "l", Sx.ofInt n]
-  | .f32 n => .list [.atom "f", Sx.ofNat n]
-  | .f64 n => .list [.atom "d", Sx.ofNat n]
+  | .f32 n => if shownFloat 8388608 256 n then .list [.atom "f", Sx.ofNat n] else .list [.atom "V"]
+  | .f64 n => if shownFloat 4503599627370496 2048 n then .list [.atom "d", Sx.ofNat n] else .list [.atom "V"]
   | .decimal s v => .list [.atom "D", Sx.ofNat s, Sx.ofInt v]
   | .str s => .list [.atom "S", hexSx s]
   | .arr xs => .list (.atom "A" :: xs.map fvalSx)
